@@ -254,6 +254,41 @@ fn c05_f_foreign_default_parent_release() {
     assert!(closes() == 2);
 }
 
+
+// ---- I: re-entry. The reference the registry holds for "entered on this thread" is one per (span, thread), however
+// often the span is re-entered before it is exited: `SpanStack::pop` reports a release only for the non-duplicate
+// entry (C06 kernel), so every further reference taken by a re-entry would never be released and the span would never
+// close. The number of references is measured with raw `try_close` calls (each releases one).
+macro_rules! reentry_harness {
+    ($name:ident, $via_other:expr) => {
+        #[kani::proof]
+        #[kani::unwind(5)]
+        #[kani::stub(std::rt::thread_cleanup, noop)]
+        #[kani::stub(core::fmt::write, fmt_write_stub)]
+        #[kani::stub(std::collections::HashMap::clear, hm_clear)]
+        fn $name() {
+            vtable_hint();
+            let __reg = core::mem::ManuallyDrop::new(Registry::default());
+            let reg: &'static Registry = unsafe { &*(&*__reg as *const Registry) };
+            let m = sp_meta(3);
+            let vs = m.fields().value_set(&[]);
+            let a = reg.new_span(&Attributes::new_root(m, &vs));
+            let b = reg.new_span(&Attributes::new_root(m, &vs));
+            reg.enter(&a);
+            if $via_other { reg.enter(&b); }
+            reg.enter(&a);
+            // the handle, then the one reference held for "a is entered": the second release is the last one
+            assert!(!reg.try_close(a.clone()));
+            assert!(reg.try_close(a.clone()));
+            // b: its handle plus (if entered) one reference
+            assert!(reg.try_close(b.clone()) == !$via_other);
+            if $via_other { assert!(reg.try_close(b.clone())); }
+        }
+    };
+}
+reentry_harness!(c05_i_reentry_direct, false);
+reentry_harness!(c05_i_reentry_via_other, true);
+
 #[kani::proof]
 #[kani::unwind(4)]
 #[kani::stub(std::rt::thread_cleanup, noop)]
